@@ -14,6 +14,20 @@ class C10(Prop):
     title = "call_out fires exactly once, on time, and can be cancelled"
     lean_modules = ["NV.C10.Props"]
     theorems = ["NV.C10.N_pow2",
+                "NV.C10.tie_clampDelay",
+                "NV.C10.tie_initCot",
+                "NV.C10.tie_slotExpr",
+                "NV.C10.tie_rotExpr",
+                "NV.C10.tie_handleExpr",
+                "NV.C10.tie_curSlot",
+                "NV.C10.tie_timeLeft",
+                "NV.C10.tie_infoTimeLeft",
+                "NV.C10.tie_sweepOrder",
+                "NV.C10.tie_sweepSlot",
+                "NV.C10.tie_sweepCond",
+                "NV.C10.newCallOut_fst",
+                "NV.C10.newCallOut_snd",
+                "NV.C10.sweepSecond_eq",
                 "NV.C10.slotOf_eq_mod",
                 "NV.C10.dueOf_spec",
                 "NV.C10.dueOf_lt_iff",
@@ -96,6 +110,10 @@ class C10(Prop):
     not_covered = ["THIS_PLAYER_IN_CALL_OUT command_giver restoration is not modelled",
                    "function-pointer call_outs (cop->ob == 0) are not generated",
                    "int overflow of the handle after 2^26 call_outs"]
+
+    def gen_extra(self, ctx, bdir):
+        from props import c10_extract
+        return c10_extract.extract(bdir)
 
     def prepare(self, ctx):
         self.exe = E.compile_harness("c10", [os.path.join(E.VERIF, "harness/c10/c10.c")])
